@@ -46,7 +46,7 @@ let pr_err = function
   | EUnread n -> "unread:" ^ hex_of_z n
   | EFmt t -> "fmt:" ^ hex_of_n t
   | ENegCount -> "negcount" | EPanic -> "panic" | ENoProgress -> "noprogress"
-  | EClosed -> "closed" | ETimedOut -> "kafka:7" | EUnmodelled -> "unmodelled"
+  | EClosed -> "closed" | EUnmodelled -> "unmodelled"
 
 let pr_result (a : api) (ver : int) (r : result) : string =
   match r with
